@@ -833,6 +833,27 @@ func updatesDroppedOnPath(f *ssa.Function, v ssa.Value) token.Pos {
 			cut[r] = true
 		}
 	}
+	// obtained inside a loop: the value of this iteration must be consumed (appended, passed on, stored) before the
+	// loop comes round again - merely flowing into the loop-carried variable means the next iteration overwrites it
+	for _, h := range f.Blocks {
+		body := engine.LoopBody(h)
+		if body == nil || !body[def.Block()] || len(h.Instrs) == 0 {
+			continue
+		}
+		loopCut := map[ssa.Instruction]bool{}
+		for in := range cut {
+			if _, isPhi := in.(*ssa.Phi); isPhi {
+				continue
+			}
+			if _, isRet := in.(*ssa.Return); isRet {
+				continue
+			}
+			loopCut[in] = true
+		}
+		if engine.ReachesAvoidingFrom(def.Block(), engine.InstrIndex(def)+1, h.Instrs[0], loopCut, skip) {
+			return h.Instrs[0].Pos()
+		}
+	}
 	if len(cut) == 0 {
 		return token.NoPos
 	}
